@@ -267,8 +267,12 @@ def filter_args(func, ignore_lst, args=(), kwargs=dict()):
         # include self, we need to fetch it from the class method, i.e
         # func.__func__
         class_method_sig = inspect.signature(func.__func__)
-        self_name = next(iter(class_method_sig.parameters))
-        arg_names = [self_name] + arg_names
+        self_param = next(iter(class_method_sig.parameters.values()))
+        arg_names = [self_param.name] + arg_names
+        if self_param.kind is self_param.POSITIONAL_ONLY:
+            # A keyword argument with the same name goes to '**', it does
+            # not replace the instance.
+            arg_posonlyargs.append(self_param.name)
     # XXX: Maybe I need an inspect.isbuiltin to detect C-level methods, such
     # as on ndarrays.
 
